@@ -72,9 +72,13 @@ class ModbusAsciiFramer(ModbusFramer):
         end = self._buffer.find(self._end)
         if end != -1:
             self._header['len'] = end
-            self._header['uid'] = int(self._buffer[1:3], 16)
-            self._header['lrc'] = int(self._buffer[end - 2:end], 16)
-            data = a2b_hex(self._buffer[start + 1:end - 2])
+            try:
+                self._header['uid'] = int(self._buffer[1:3], 16)
+                self._header['lrc'] = int(self._buffer[end - 2:end], 16)
+                data = a2b_hex(self._buffer[start + 1:end - 2])
+            except ValueError:
+                # not hexadecimal: this cannot be a valid frame
+                return False
             return checkLRC(data, self._header['lrc'])
         return False
 
@@ -179,6 +183,11 @@ class ModbusAsciiFramer(ModbusFramer):
                     _logger.error("Not a valid unit id - {}, "
                                   "ignoring!!".format(self._header['uid']))
                     self.resetFrame()
+            elif (self._buffer.startswith(self._start) and
+                  self._buffer.find(self._end) != -1):
+                # a complete frame that failed the hex/LRC check: discard it
+                # (and only it), otherwise it would block the receiver forever
+                self.advanceFrame()
             else:
                 break
 
